@@ -208,6 +208,17 @@ def c04_families():
     fam.append(("two-firsthits-different-callsites", {
         "n": 2, "filters": f, "pre": [(0, ("new", 0, 3, P)), (0, ("setdefault", 0)), (1, ("setdefault", 0))],
         "progs": [[("emit", 3)], [("emit", 8)]], "post": probe(3) + probe(8)}))
+    # two first hits of DIFFERENT callsites racing on the list head (one list CAS fails and retries), then collector turnover:
+    # a collector that rejects both is created, installed and probed -- a registration lost from the list keeps its stale `always`
+    fam.append(("two-firsthits-then-rejecting-new", {
+        "n": 2, "filters": f, "pre": [(0, ("new", 0, 0, P)), (0, ("setdefault", 0)), (1, ("setdefault", 0))],
+        "progs": [[("emit", 3)], [("emit", 8)]],
+        "post": [(0, ("new", 1, 2, P)), (0, ("setdefault", 1)), (1, ("setdefault", 1)), (0, ("emit", 3)), (0, ("emit", 8)), (1, ("emit", 3)), (1, ("emit", 8))]}))
+    # ... and the other direction: both cached `never` (their default rejects), then an accepting collector
+    fam.append(("two-firsthits-then-accepting-new", {
+        "n": 2, "filters": f, "pre": [(0, ("new", 0, 1, P)), (0, ("setdefault", 0)), (1, ("setdefault", 0))],
+        "progs": [[("emit", 3)], [("emit", 1)]],
+        "post": [(1, ("new", 1, 0, P)), (0, ("setdefault", 1)), (1, ("setdefault", 1)), (0, ("emit", 3)), (0, ("emit", 1)), (1, ("emit", 3)), (1, ("emit", 1))]}))
     # the max level: callsite 3 is above the only collector's hint until T0's new collector raises it
     fam.append(("new-raises-max-level", {
         "n": 2, "filters": f, "pre": [(0, ("new", 0, 2, P)), (1, ("setdefault", 0))],
@@ -231,7 +242,7 @@ def c04_families():
 def c12_families():
     f = [ACC, LOW, REJ_A, DYN, ("dyn", 1, 5), ("none",)]
     fam = []
-    for kind in ("rlayer", "rfilter"):
+    for kind in ("rlayer", "rlayer2", "rfilter"):
         base_pre = [(0, ("new", 0, 0, kind)), (0, ("setdefault", 0)), (1, ("setdefault", 0))]
         # a reload against the FIRST hit of a callsite
         fam.append(("reload-vs-firsthit-" + kind, {
@@ -253,6 +264,16 @@ def c12_families():
         fam.append(("reload-vs-drop-" + kind, {
             "n": 2, "filters": f, "pre": [(0, ("new", 0, 0, kind)), (0, ("new", 1, 0, "plain")), (1, ("setdefault", 1)), (1, ("emit", 3))],
             "progs": [[("reload", 0, 2)], [("drop", 0)]], "post": [(1, ("emit", 3)), (0, ("reload", 0, 1)), (1, ("emit", 3))]}))
+    # Option<layer> through a reload handle, the reloadable layer NOT innermost, over a hintless neighbour: Some(WARN) -> None
+    # must make the stack transparent (hint TRACE, everything delivered), None -> Some(WARN) must lower it again
+    fam.append(("reload-some-to-none-rlayer2", {
+        "n": 2, "filters": f, "pre": [(0, ("new", 0, 1, "rlayer2")), (0, ("setdefault", 0)), (1, ("setdefault", 0)), (1, ("emit", 3))],
+        "progs": [[("reload", 0, 5)], [("emit", 3), ("emit", 3)]],
+        "post": [(1, ("emit", 3)), (0, ("emit", 3)), (0, ("reload", 0, 1)), (1, ("emit", 3)), (1, ("emit", 1))]}))
+    fam.append(("reload-none-to-some-rlayer2", {
+        "n": 2, "filters": f, "pre": [(0, ("new", 0, 5, "rlayer2")), (0, ("setdefault", 0)), (1, ("setdefault", 0)), (1, ("emit", 3))],
+        "progs": [[("reload", 0, 1)], [("emit", 3), ("emit", 1)]],
+        "post": [(1, ("emit", 3)), (0, ("emit", 1)), (0, ("reload", 0, 5)), (1, ("emit", 3))]}))
     # `sometimes` values: dyn -> dyn with a lower threshold
     fam.append(("reload-dyn-dyn", {
         "n": 2, "filters": f, "pre": [(0, ("new", 0, 3, "rfilter")), (0, ("setdefault", 0)), (1, ("setdefault", 0)), (1, ("emit", 3))],
